@@ -40,6 +40,11 @@ type history struct {
 	// inject: when callback kind At of any instance runs during shutdown, send Sig to the process
 	InjectAt  string `json:"inject_at,omitempty"`
 	InjectSig string `json:"inject_sig,omitempty"`
+	// overlap: the history ends with a successful reload; while the new instance's startup callback runs, signal Overlap
+	// (INT or TERM) arrives; the reload goes on only after the signal's handler has run the old instance's shutdown callbacks
+	// (gate 1), and a handler that stops the servers (SIGTERM's does) goes on only after the reload has returned (gate 2).
+	// Both gates have a time limit.
+	Overlap string `json:"overlap,omitempty"`
 }
 
 var flagHistory = flag.String("history", "", "child mode")
@@ -52,6 +57,13 @@ var (
 	injSig   string
 	injected bool
 	armed    bool // the injection only fires during the shutdown run of the history's final signal
+	// overlap scenario
+	ovSig        string
+	ovNew, ovOld string // instance numbers (as text) of the reloading and the old instance
+	ovGate1      = make(chan struct{})
+	ovGate2      = make(chan struct{})
+	ovOnce1      sync.Once
+	ovSignalled  bool
 )
 
 func trace(format string, a ...interface{}) {
@@ -105,8 +117,9 @@ func (s *plainSrv) ServePacket(net.PacketConn) error      { return nil }
 
 type gracefulSrv struct {
 	plainSrv
-	stop chan struct{}
-	once sync.Once
+	stop     chan struct{}
+	once     sync.Once
+	gateOnce sync.Once
 }
 
 func (s *gracefulSrv) Serve(net.Listener) error {
@@ -118,6 +131,18 @@ func (s *gracefulSrv) Serve(net.Listener) error {
 func (s *gracefulSrv) Stop() error {
 	trace("stop(%d,%d)", s.k, s.n)
 	s.once.Do(func() { close(s.stop) })
+	first := false
+	s.gateOnce.Do(func() { first = true })
+	if first && ovSignalled && fmt.Sprint(s.k) == ovOld && s.n == 1 {
+		// (overlap scenario, gate 2) the signal's handler has run the callbacks and is stopping the old instance's servers, as a
+		// graceful stop that waits for its connections would take a while: it goes on, and ends the process, only when
+		// the reload has returned
+		select {
+		case <-ovGate2:
+		case <-time.After(1500 * time.Millisecond):
+			trace("#gate 2 timed out (the reload did not return)")
+		}
+	}
 	return nil
 }
 func (s *gracefulSrv) Address() string                           { return fmt.Sprintf("fake-%d", s.n) }
@@ -162,6 +187,20 @@ func registerLife() {
 						injected = true
 						syscall.Kill(os.Getpid(), sigOf(injSig))
 						time.Sleep(30 * time.Millisecond) // let the second handler run into the first one's critical section
+					}
+					if ovSig != "" && name == "a" {
+						switch {
+						case kind == "startup" && k == ovNew && !ovSignalled:
+							ovSignalled = true
+							syscall.Kill(os.Getpid(), sigOf(ovSig))
+							select {
+							case <-ovGate1:
+							case <-time.After(1500 * time.Millisecond):
+								trace("#gate 1 timed out (the handler did not reach the old instance's final-shutdown callback)")
+							}
+						case kind == "final-shutdown" && k == ovOld:
+							ovOnce1.Do(func() { close(ovGate1) })
+						}
 					}
 					if fails[kind] {
 						return fmt.Errorf("%s callback failure injected", kind)
@@ -247,7 +286,16 @@ func child(h history) {
 	var inst *casket.Instance
 	k := 0
 	waitStarted := false
-	for _, e := range h.Events {
+	if h.Overlap != "" {
+		n := 0
+		for _, e := range h.Events {
+			if e.Op == "start" || e.Op == "reload" || e.Op == "usr1" {
+				n++
+			}
+		}
+		ovSig, ovNew, ovOld = h.Overlap, fmt.Sprint(n), fmt.Sprint(n-1)
+	}
+	for ei, e := range h.Events {
 		trace("#%s", describe(e))
 		switch e.Op {
 		case "start", "reload", "usr1":
@@ -318,6 +366,12 @@ func child(h history) {
 			syscall.Kill(os.Getpid(), sigOf(e.Op))
 			time.Sleep(20 * time.Second)
 			trace("!signal %s did not end the process", e.Op)
+			os.Exit(98)
+		}
+		if h.Overlap != "" && ei == len(h.Events)-1 {
+			close(ovGate2)
+			time.Sleep(5 * time.Second) // the signal's handler ends the process
+			trace("!the overlapping signal %s did not end the process", h.Overlap)
 			os.Exit(98)
 		}
 		time.Sleep(3 * time.Millisecond) // let server goroutines reach their trace points
@@ -532,7 +586,7 @@ func main() {
 		return
 	}
 	rep := kit.NewReport("C16", "model_checking",
-		"every history of start + <=2 (thorough 3) further events over {reload via API / via real SIGUSR1 (ok, or failing at parse, setup, startup, listen, or through a failing restart callback), stop, SIGINT, SIGTERM, SIGQUIT}, with graceful and non-graceful servers, plus histories with a second signal (INT/TERM) injected from inside the first shutdown / final-shutdown callback; one child process per history on a fake server type; the ordered callback/listen/stop trace and the exit code are compared with an executable reference model; distinct_nontrivial = history classes")
+		"every history of start + <=2 (thorough 3) further events over {reload via API / via real SIGUSR1 (ok, or failing at parse, setup, startup, listen, or through a failing restart callback), stop, SIGINT, SIGTERM, SIGQUIT}, with graceful and non-graceful servers, plus histories with a second signal (INT/TERM) injected from inside the first shutdown / final-shutdown callback, and histories in which INT or TERM arrives while a reload runs its startup callbacks (two gates order the handler and the reload); one child process per history on a fake server type; the ordered callback/listen/stop trace and the exit code are compared with an executable reference model; distinct_nontrivial = history classes")
 	starts := []event{{Op: "start"}, {Op: "start", Fail: "parse"}, {Op: "start", Fail: "setup"}, {Op: "start", Fail: "first-startup"}, {Op: "start", Fail: "startup"}, {Op: "start", Fail: "listen"}, {Op: "start", RestartFails: true}, {Op: "start", Plain: true}}
 	var steps []event
 	for _, op := range []string{"reload", "usr1"} {
@@ -578,6 +632,21 @@ func main() {
 		if e, ok := model(h); ok {
 			valid = append(valid, h)
 			exps = append(exps, e)
+		}
+	}
+	// a shutdown signal that overlaps a successful reload (see history.Overlap). SIGTERM and SIGUSR1 are handled by one
+	// goroutine, one after the other, so that pair cannot overlap and is left out.
+	for _, pre := range [][]event{{{Op: "start"}}, {{Op: "start"}, {Op: "reload"}}, {{Op: "start", Plain: true}}} {
+		for _, rl := range []string{"reload", "usr1"} {
+			for _, sig := range []string{"INT", "TERM"} {
+				if rl == "usr1" && sig == "TERM" {
+					continue
+				}
+				h := history{Events: append(append([]event{}, pre...), event{Op: rl}), Overlap: sig}
+				e, _ := model(history{Events: append(append([]event{}, h.Events...), event{Op: sig})})
+				valid = append(valid, h)
+				exps = append(exps, e)
+			}
 		}
 	}
 	rep.Set("histories", len(valid))
@@ -640,6 +709,29 @@ func main() {
 		}
 		if problems != "" {
 			rep.Violation("C16/stuck"+tag, problems, mkcase())
+			continue
+		}
+		if h.Overlap != "" {
+			// every shutdown and final-shutdown callback of every instance runs exactly once, whichever of the two (the reload,
+			// the signal's handler) runs it; the order between the two is free
+			cnt := map[string]int{}
+			for _, e := range syncObs {
+				cnt[e]++
+			}
+			for e, n := range cnt {
+				if n > 1 && (strings.HasPrefix(e, "shutdown") || strings.HasPrefix(e, "final-shutdown")) {
+					rep.Violation("C16/shutdown-callback-ran-twice/signal-during-reload", fmt.Sprintf("%s ran %d times: %s arrived while the reload was running its startup callbacks", e, n, h.Overlap), mkcase())
+				}
+			}
+			for _, e := range exp.sync {
+				if (strings.HasPrefix(e, "shutdown") || strings.HasPrefix(e, "final-shutdown")) && cnt[e] == 0 {
+					rep.Violation("C16/shutdown-callback-skipped/signal-during-reload", fmt.Sprintf("%s did not run: %s arrived while the reload was running its startup callbacks", e, h.Overlap), mkcase())
+				}
+			}
+			rep.Class("signal-during-reload/" + h.Overlap)
+			if os.Getenv("C16_DUMP") != "" { // (debugging aid)
+				fmt.Printf("OVERLAP %+v exit=%d\n  %s\n", h, codes[i], strings.Join(traces[i], "\n  "))
+			}
 			continue
 		}
 		if h.InjectAt == "" {
